@@ -5,4 +5,4 @@ CHECK_DEADLOCK FALSE
 CONSTANTS
   PlanName = "nest1"
   Ds = {"d4", "d6", "d7", "d2019", "d2020"}
-  KnownDeviations = {"ojson-member-order", "not-keeps-annotations", "contains-leaks-child-items"}
+  KnownDeviations = {"ojson-member-order", "not-keeps-annotations", "contains-leaks-child-items", "d4-integer-zero-fraction", "unevaluatedProperties-leaks-child-properties"}
